@@ -70,6 +70,15 @@ Theorem C14_enum_len_stable : forall bs n, EnumScanner.enum_len bs = (EnumScanne
 Proof. exact EnumProofs.enum_len_stable. Qed.
 Print Assumptions C14_enum_len_stable.
 
+(* after the fix a0479cf a slash after the array that begins neither // nor /* ends the rule: Len of
+   "[1, 2]" LF "/cats" is 6 (and Len of those 6 bytes is 6); a slash at the very end of the text is
+   still the unfinished opener (ErrUnexpectedEOF at the slash) *)
+Example C14_enum_len_slash_examples :
+  EnumScanner.enum_len [x5b; x31; x2c; x20; x32; x5d; x0a; x2f; x63; x61; x74; x73] = (EnumScanner.VOk, 6%N) /\
+  EnumScanner.enum_len (firstn 6 [x5b; x31; x2c; x20; x32; x5d; x0a; x2f; x63; x61; x74; x73]) = (EnumScanner.VOk, 6%N) /\
+  EnumScanner.enum_len [x5b; x31; x5d; x20; x2f] = (EnumScanner.VErr EnumScanner.code_unexpected_eof 4%N, 0%N).
+Proof. vm_compute. repeat split; reflexivity. Qed.
+
 (* Property C14 for Schema.Len (model SchemaScanner.schema_len, after the fixes 555884d and c67ddfe).
    What Len returns is a prefix length: positive, not longer than the text, not ending in a blank.
    (Before the fix c67ddfe Len was 0 for an empty text, a text of blanks, a text that is only a
@@ -206,3 +215,23 @@ Example C14_schema_len_after_annotation_object :
   snd (SchemaScanner.scan false (firstn 13 SchemaLenProofs.len_after_annotation_1)) = SchemaScanner.Done /\
   SchemaScanner.schema_len (firstn 13 SchemaLenProofs.len_after_annotation_1) = SchemaScanner.VLen 13.
 Proof. exact SchemaLenProofs.schema_len_after_annotation_object. Qed.
+
+(* A slash that cannot begin an annotation ends the schema in length mode (fix a0479cf): after "{}" and
+   a line break, a slash followed by any byte other than '/' and '*' ends the schema, whatever follows
+   (proof by symbolic execution of the model in SchemaScan/SchemaLenProofs.v); and the examples
+   "{}" LF "/abc/" = 2, "{"id": 1}" LF LF "/cats/{id}" = 9, "[1, 2]" LF "// x" = 6 (annotations are banned
+   after a non-empty array, so after the line break every slash ends the schema), "[1, 2] // x" =
+   error 304 at 7, "1 /" = error 303 at 2 *)
+Theorem C14_schema_len_foreign_slash : forall x (rest : Wire.bytes),
+  SchemaScanner.ch x 47 = false -> SchemaScanner.ch x 42 = false ->
+  SchemaScanner.schema_len (x7b :: x7d :: x0a :: x2f :: x :: rest) = SchemaScanner.VLen 2.
+Proof. exact SchemaLenProofs.schema_len_foreign_slash. Qed.
+Print Assumptions C14_schema_len_foreign_slash.
+
+Example C14_schema_len_trailer_with_slash :
+  SchemaScanner.schema_len (SchemaLenProofs.bytes_of [123; 125; 10; 47; 97; 98; 99; 47]%N) = SchemaScanner.VLen 2 /\
+  SchemaScanner.schema_len (SchemaLenProofs.bytes_of [123; 34; 105; 100; 34; 58; 32; 49; 125; 10; 10; 47; 99; 97; 116; 115; 47; 123; 105; 100; 125]%N) = SchemaScanner.VLen 9 /\
+  SchemaScanner.schema_len (SchemaLenProofs.bytes_of [91; 49; 44; 32; 50; 93; 10; 47; 47; 32; 120]%N) = SchemaScanner.VLen 6 /\
+  SchemaScanner.schema_len (SchemaLenProofs.bytes_of [91; 49; 44; 32; 50; 93; 32; 47; 47; 32; 120]%N) = SchemaScanner.VErr 304 7 /\
+  SchemaScanner.schema_len (SchemaLenProofs.bytes_of [49; 32; 47]%N) = SchemaScanner.VErr 303 2.
+Proof. exact SchemaLenProofs.schema_len_trailer_with_slash. Qed.
